@@ -96,9 +96,15 @@ def hull : List Range → Option Range
     | none => some r
     | some h => some ⟨min r.s h.s, max r.e h.e⟩
 
-/-- `get_filtered` (repaired, fix F27): skip (none), report as certainly matching (some true), or hand to full
-    evaluation; an enclosing range that only touches the requested range is always handed to full evaluation -/
+/-- `get_filtered` (repaired, fixes F27 and F37): skip (none), report as certainly matching (some true), or hand to full
+    evaluation; an enclosing range that only touches the requested range, or shares an end point with it, is always handed
+    to full evaluation -/
 def prefilter (simple : Bool) (fs fe : Int) (h : Range) : Option Bool :=
+  if h.s > fe || h.e < fs then none
+  else some (simple && !(h.s == fe || h.e == fs || h.s == fs || h.e == fe) && (fs ≤ h.s || h.e ≤ fe))
+
+/-- `get_filtered` between fixes F27 and F37: only ranges touching from outside were handed to full evaluation -/
+def prefilterF27 (simple : Bool) (fs fe : Int) (h : Range) : Option Bool :=
   if h.s > fe || h.e < fs then none
   else some (simple && !(h.s == fe || h.e == fs) && (fs ≤ h.s || h.e ≤ fe))
 
